@@ -226,7 +226,11 @@ def run(res, tier, seed):
         after = one_per_line(rng, rng.randrange(0, 5))
         body = one_per_line(rng, rng.randrange(0, 4))
         closed = rng.random() < 0.5
-        head = rng.choice([".macro foo", ".macro push_all", "  .macro m2 x y", ".MACRO big"])
+        head = rng.choice([".macro foo", ".macro push_all", "  .macro m2 x y", ".MACRO big", ".macro inc(%r)", ".macro add3 (%a, %b)"])
+        if "%" in head or rng.random() < 0.3:
+            # RARS's parameter syntax and other text the lexer cannot read: part of the skipped body like the rest
+            body = body + [rng.choice(["    addi %r, %r, 1", "    li %a, 7 ?", "    print_str (\"x\")", "    sw %b, 0(sp) @"])]
+            rng.shuffle(body)
         # both spellings close it: RARS's `.end_macro` and the `.endmacro` this project started with
         close = [rng.choice([".endmacro", "  .endmacro", ".ENDMACRO", ".end_macro", "\t.end_macro", ".End_Macro"])] \
             if closed else rng.choice([[], [".endm"], ["# .endmacro"], ["# .end_macro"], [".end_macr"]])
